@@ -78,11 +78,13 @@ structure Pkg where
   loc : Path
 deriving DecidableEq, Repr
 
-/-- one `Extract` invocation: extractor, path, size of the file -/
+/-- one `runExtractor` invocation: extractor, path, size of the file, and whether the file could be
+opened and stat'ed — only then is `Extract` really called -/
 structure Call where
   ext : Nat
   path : Path
   size : Nat
+  opened : Bool
 deriving DecidableEq, Repr
 
 /-- an entry of `wc.gitignores`: `none` = nil / empty matcher -/
@@ -91,7 +93,8 @@ abbrev GiEntry := Option (List String × PatSet)
 structure St where
   inodes : Nat := 0              -- wc.inodesVisited
   visited : Nat := 0             -- stats.AfterInodeVisited calls
-  calls : List Call := []        -- Extract invocations, in order (whole scan)
+  calls : List Call := []        -- runExtractor invocations, in order (whole scan); `Extract` ran for the opened ones
+  extracts : Nat := 0            -- wc.extractCalls: number of `Extract` invocations so far
   gis : List GiEntry := []       -- wc.gitignores
   giDirs : List Path := []       -- wc.gitignoreDirs
   errs : List Nat := []          -- wc.errors: one entry per addErrToMap call (reset per root)
@@ -136,10 +139,10 @@ def fserrCall (c : Cfg) (s : St) : St × Err :=
 
 /-- `runExtractor`; the Bool says "Extract panicked" -/
 def runExtractor (c : Cfg) (f : Faults) (s : St) (e : Nat) (p : Path) (size : Nat) : St × Bool :=
-  if f.openFail p then ({ s with errs := s.errs ++ [e] }, false) else
-  if f.fileStatFail p then ({ s with errs := s.errs ++ [e] }, false) else
-  let s := { s with calls := s.calls ++ [⟨e, p, size⟩] }
-  let s := if c.cancelAt = some s.calls.length then { s with cancelled := true } else s
+  if f.openFail p then ({ s with errs := s.errs ++ [e], calls := s.calls ++ [⟨e, p, size, false⟩] }, false) else
+  if f.fileStatFail p then ({ s with errs := s.errs ++ [e], calls := s.calls ++ [⟨e, p, size, false⟩] }, false) else
+  let s := { s with calls := s.calls ++ [⟨e, p, size, true⟩], extracts := s.extracts + 1 }
+  let s := if c.cancelAt = some s.extracts then { s with cancelled := true } else s
   let out := c.extract e p
   if out.panics then (s, true) else
   let s := if out.err then { s with errs := s.errs ++ [e] } else s
